@@ -145,6 +145,45 @@ Theorem C04_protocol_convergence :
 Proof. exact protocol_convergence. Qed.
 Print Assumptions C04_protocol_convergence.
 
+(* (7b) APPLY BATCHING. The code does not apply entries one at a time: applyEntries hands a group of committed
+        entries to one batch operator (batchable commands read committed data only, one primary key per batch,
+        commit before a non-batchable command). That logic is C07's model coq/Determ/Model.v; it is instantiated
+        on Lin/Spec.v (Lin/Batching.v) and added to the protocol as t_apply_group (ANY partition of the next n
+        entries into apply batches). By C07's theorem batch_equiv_replies the store and every reply of a group
+        are those of Spec.step entry by entry, so theorems (4)-(7) hold for the batched system. A batch operator
+        admitting two conditional SETs on one key (seeded change C04-a2) breaks C07's theorem and with it these. *)
+From ZV Require Import Lin.Batching Lin.BatchingProofs.
+
+Theorem C04_batched_is_sequential : forall ents p s s1 o1 e1,
+  NoDup (map e_id ents) -> Determ.Model.flatten p = map req_of ents ->
+  batched_apply (tbl_of ents) s p = Some (s1, o1, e1) ->
+  s1 = run_st s ents /\
+  forall j e, nth_error ents j = Some e ->
+    Determ.Model.reply_of res (N.of_nat (e_id e)) o1 = Some (snd (step (run_st s (firstn j ents)) (e_op e))).
+Proof. exact batched_is_sequential. Qed.
+Print Assumptions C04_batched_is_sequential.
+
+Theorem C04_batched_protocol_linearizable :
+  forall apply_impl : nat -> N -> state -> op -> state * res,
+  (forall r ts s o, apply_impl r ts s o = step s o) ->
+  forall g, reachableB apply_impl g -> linearizable (g_hist g).
+Proof. exact batched_protocol_linearizable. Qed.
+Print Assumptions C04_batched_protocol_linearizable.
+
+Theorem C04_batched_protocol_commit_point :
+  forall apply_impl : nat -> N -> state -> op -> state * res,
+  (forall r ts s o, apply_impl r ts s o = step s o) ->
+  forall g, reachableB apply_impl g -> commit_point_stmt g.
+Proof. exact batched_protocol_commit_point. Qed.
+Print Assumptions C04_batched_protocol_commit_point.
+
+Theorem C04_batched_protocol_convergence :
+  forall apply_impl : nat -> N -> state -> op -> state * res,
+  (forall r ts s o, apply_impl r ts s o = step s o) ->
+  forall g, reachableB apply_impl g -> convergence_stmt g.
+Proof. exact batched_protocol_convergence. Qed.
+Print Assumptions C04_batched_protocol_convergence.
+
 (* (8) the tie to the source tree (generated Lin/Consts.v): every operation of the specification that can
        change the state is registered as a write command (proposed to the log) with an apply handler;
        the local shortcut replies only where the specification's step is the identity with that reply *)
